@@ -646,7 +646,6 @@ var lenAlphabet = []byte{0x00, 0x01, 0x37, 0x38, 0x7f, 0x80, 0xff}
 // Run
 
 func runC46(env *mc.Env) {
-	defer stopProf()
 	// Part 1: every byte string of length <= 3, both functions, direct calls.
 	var p1 func(first int)
 	p1 = func(first int) {
